@@ -97,7 +97,16 @@ Definition js_to_go (cps : list Z) : list Z := utf8_encode (map (fun c => if is_
 
 Definition cont (b : Z) : bool := (128 <=? b) && (b <=? 191).
 
-(* decoder: well-formed sequences per Unicode table 3-7; anything else yields U+FFFD for one byte *)
+(* second byte ranges of Unicode table 3-7 *)
+Definition second_ok (x y : Z) : bool :=
+  if x =? 224 then (160 <=? y) && (y <=? 191)
+  else if x =? 237 then (128 <=? y) && (y <=? 159)
+  else if x =? 240 then (144 <=? y) && (y <=? 191)
+  else if x =? 244 then (128 <=? y) && (y <=? 143)
+  else cont y.
+
+(* decoder: well-formed sequences per Unicode table 3-7; each maximal ill-formed subpart becomes one U+FFFD
+   (the policy of golang.org/x/text's UTF-8 decoder and of the WHATWG encoding standard) *)
 Fixpoint utf8_decode_fuel (fuel : nat) (b : list Z) : list Z :=
   match fuel with
   | O => []
@@ -106,33 +115,53 @@ Fixpoint utf8_decode_fuel (fuel : nat) (b : list Z) : list Z :=
     | [] => []
     | x :: r =>
       if x <? 128 then x :: utf8_decode_fuel f r
-      else
+      else if (194 <=? x) && (x <=? 223) then
         match r with
-        | y :: r1 =>
-          if (194 <=? x) && (x <=? 223) && cont y then ((x - 192) * 64 + (y - 128)) :: utf8_decode_fuel f r1
-          else
-            match r1 with
-            | z :: r2 =>
-              if (224 <=? x) && (x <=? 239) && cont y && cont z &&
-                 negb ((x =? 224) && (y <? 160)) && negb ((x =? 237) && (y >? 159))
-              then ((x - 224) * 4096 + (y - 128) * 64 + (z - 128)) :: utf8_decode_fuel f r2
-              else
-                match r2 with
-                | w :: r3 =>
-                  if (240 <=? x) && (x <=? 244) && cont y && cont z && cont w &&
-                     negb ((x =? 240) && (y <? 144)) && negb ((x =? 244) && (y >? 143))
-                  then ((x - 240) * 262144 + (y - 128) * 4096 + (z - 128) * 64 + (w - 128)) :: utf8_decode_fuel f r3
-                  else 65533 :: utf8_decode_fuel f r
-                | [] => 65533 :: utf8_decode_fuel f r
-                end
-            | [] => 65533 :: utf8_decode_fuel f r
-            end
+        | y :: r1 => if cont y then ((x - 192) * 64 + (y - 128)) :: utf8_decode_fuel f r1 else 65533 :: utf8_decode_fuel f r
         | [] => [65533]
         end
+      else if (224 <=? x) && (x <=? 239) then
+        match r with
+        | y :: r1 =>
+          if second_ok x y then
+            match r1 with
+            | z :: r2 => if cont z then ((x - 224) * 4096 + (y - 128) * 64 + (z - 128)) :: utf8_decode_fuel f r2
+                         else 65533 :: utf8_decode_fuel f r1
+            | [] => [65533]
+            end
+          else 65533 :: utf8_decode_fuel f r
+        | [] => [65533]
+        end
+      else if (240 <=? x) && (x <=? 244) then
+        match r with
+        | y :: r1 =>
+          if second_ok x y then
+            match r1 with
+            | z :: r2 =>
+              if cont z then
+                match r2 with
+                | w :: r3 => if cont w then ((x - 240) * 262144 + (y - 128) * 4096 + (z - 128) * 64 + (w - 128)) :: utf8_decode_fuel f r3
+                             else 65533 :: utf8_decode_fuel f r2
+                | [] => [65533]
+                end
+              else 65533 :: utf8_decode_fuel f r1
+            | [] => [65533]
+            end
+          else 65533 :: utf8_decode_fuel f r
+        | [] => [65533]
+        end
+      else 65533 :: utf8_decode_fuel f r
     end
   end.
 
 Definition utf8_decode (b : list Z) : list Z := utf8_decode_fuel (length b) b.
+
+(* the trimming loop of Buffer.write(): for length > 0 && raw[length]&0xC0 == 0x80 { length-- } *)
+Fixpoint trim_cont (raw : list Z) (length : nat) : nat :=
+  match length with
+  | O => O
+  | S k => if cont (nth (S k) raw 0) then trim_cont raw k else S k
+  end.
 
 (* ---------------- codec dispatch ---------------- *)
 Inductive codec := CHex | CUtf8 | CBase64 | CBase64Url.
